@@ -596,6 +596,7 @@ fn check_float_index(keys: &Vec<u64>) -> CaseResult {
     let cls = float_class(keys);
     let fs: Vec<f64> = keys.iter().map(|b| f64::from_bits(*b)).collect();
     // laws of the key wrapper
+    let mut nan_side: Option<bool> = None;
     for (i, a) in fs.iter().enumerate() {
         for (j, b) in fs.iter().enumerate() {
             let (eq, c, c2) = guard("OrderedFloat", || {
@@ -609,7 +610,14 @@ fn check_float_index(keys: &Vec<u64>) -> CaseResult {
             if (c == Ordering::Equal) != eq {
                 return fail(format!("c16/float-index/cmp-vs-eq:{pc}"), format!("{a:e} vs {b:e}: cmp {c:?}, eq {eq}"));
             }
-            if c != model_cmp(&vals[i], &vals[j]) {
+            if a.is_nan() != b.is_nan() {
+                // documented: NaNs equal each other; which side of the numbers they sort on is not documented,
+                // but it must be the same side every time
+                let nan_greater = (c == Ordering::Greater) == a.is_nan();
+                if c == Ordering::Equal || *nan_side.get_or_insert(nan_greater) != nan_greater {
+                    return fail(format!("c16/float-index/order:{pc}"), format!("cmp({a:e}, {b:e}) = {c:?}: NaN must sort on one fixed side of all numbers"));
+                }
+            } else if c != model_cmp(&vals[i], &vals[j]) {
                 return fail(
                     format!("c16/float-index/order:{pc}"),
                     format!("cmp({a:e}, {b:e}) = {c:?}, expected {:?} (numeric order, NaNs equal to each other)", model_cmp(&vals[i], &vals[j])),
@@ -640,10 +648,10 @@ fn check_float_index(keys: &Vec<u64>) -> CaseResult {
     if len != classes || range.len() != classes {
         return fail(format!("c16/float-index/classes:{cls}"), format!("len {len}, range {}, classes {classes}; {vals:?}", range.len()));
     }
-    for w in 0..range.len().saturating_sub(1) {
-        if model_cmp(&VSpec::F(range[w]), &VSpec::F(range[w + 1])) != Ordering::Less {
-            return fail(format!("c16/float-index/range-order:{cls}"), format!("{:?} then {:?}", VSpec::F(range[w]), VSpec::F(range[w + 1])));
-        }
+    let nn: Vec<u64> = range.iter().copied().filter(|b| !f64::from_bits(*b).is_nan()).collect();
+    let nan_inside = range.iter().enumerate().any(|(i, b)| f64::from_bits(*b).is_nan() && i != 0 && i + 1 != range.len());
+    if nan_inside || nn.windows(2).any(|w| model_cmp(&VSpec::F(w[0]), &VSpec::F(w[1])) != Ordering::Less) {
+        return fail(format!("c16/float-index/range-order:{cls}"), format!("range(..) = {:?}", range.iter().map(|b| VSpec::F(*b)).collect::<Vec<_>>()));
     }
     ok(cls != "plain" && keys.len() >= 2, cls, hash_of(keys))
 }
@@ -1286,17 +1294,12 @@ fn check_op_sort(c: &TableCase) -> CaseResult {
     if got != want {
         return fail(format!("c16/sort/not-permutation:{col_cls}"), format!("input rows {want:?}, output rows {got:?}"));
     }
-    // NULL placement
+    // NULL placement: which end is a matter of the NullOrder / direction contract (C17/C08), not of C16;
+    // here NULLs only have to form one block at either end.
     let keys: Vec<&VSpec> = rows.iter().map(|r| &r[0]).collect();
     let null_pos: Vec<usize> = keys.iter().enumerate().filter(|(_, k)| matches!(k, VSpec::Null)).map(|(i, _)| i).collect();
     let n_null = null_pos.len();
-    let ok_nulls = if c.nulls_first != c.descending {
-        // NullsFirst ascending, or NullsLast descending (direction reverses the whole comparison, nulls included)
-        null_pos.iter().copied().eq(0..n_null)
-    } else {
-        null_pos.iter().copied().eq(keys.len() - n_null..keys.len())
-    };
-    if !ok_nulls {
+    if !(null_pos.iter().copied().eq(0..n_null) || null_pos.iter().copied().eq(keys.len() - n_null..keys.len())) {
         return fail(format!("c16/sort/null-placement:{col_cls}"), format!("nulls_first={} descending={}: {keys:?}", c.nulls_first, c.descending));
     }
     // order among values every notion agrees on
